@@ -49,44 +49,58 @@ def make_fold(atom):
 def typing_outcomes(model: Model, opname: str, lk: str, rk: str, comparisons: set):
     """[('accept', result kind, [operand kinds]) | ('raise', error)] for one abstract triple."""
     rb = model.func(TYPES, "ResolveBinaryExpressionType")
-    names = {"leftRightIsScalar": lk == "S" and rk == "S"}
-    kind_of = {"left": lk, "right": rk}
+    # conditions are folded with the function's single-assignment locals inlined, so the model does not depend on local names;
+    # the parameters are (operation, left type, right type)
+    from .sem import local_env, resolve
+
+    opn, ln, rn = (a.arg for a in rb.args.args[:3])
+    kind_of = {ln: lk, rn: rk}
+    renv = local_env(rb)
+    SHL, SHR = f"_GetRowsColumns({ln})", f"_GetRowsColumns({rn})"
 
     def atom(t):
         s = " ".join(unparse(t).split())
-        if s in ("op.IsComparison(operation)", "IsComparison(operation)"):
+        if s in (f"op.IsComparison({opn})", f"IsComparison({opn})"):
             return opname in comparisons
-        if isinstance(t, ast.Name) and t.id in names:
-            return names[t.id]
-        for who in ("left", "right"):
+        for who in (ln, rn):
             for pred, k in (("IsScalar", "S"), ("IsVector", "V"), ("IsMatrix", "M")):
                 if s == f"{who}.{pred}()":
                     return kind_of[who] == k
         if isinstance(t, ast.Compare) and len(t.ops) == 1:
             l, r = unparse(t.left), unparse(t.comparators[0])
-            if l == "operation" and r.startswith("op.Operation."):
+            if l == opn and r.startswith("op.Operation."):
                 eq = r.split(".")[-1] == opname
                 return eq if isinstance(t.ops[0], ast.Eq) else (not eq) if isinstance(t.ops[0], ast.NotEq) else None
-            if l == "operation" and isinstance(t.ops[0], ast.In) and isinstance(t.comparators[0], ast.Set):
+            if l == opn and isinstance(t.ops[0], (ast.In, ast.NotIn)) and isinstance(t.comparators[0], (ast.Set, ast.Tuple, ast.List)):
                 mem = {dotted(e).split(".")[-1] for e in t.comparators[0].elts}
-                return opname in mem
-            if l == "left.GetKind()" and r == "right.GetKind()":
+                return (opname in mem) == isinstance(t.ops[0], ast.In)
+            if {l, r} == {f"{ln}.GetKind()", f"{rn}.GetKind()"}:
                 ne = lk != rk
                 return ne if isinstance(t.ops[0], ast.NotEq) else (not ne)
-            if l == "left" and r == "right" and isinstance(t.ops[0], ast.Eq):
-                return None if lk == rk else False
-            if s.replace(" ", "") == "leftShape[1]!=rightShape[0]":
+            if {l, r} == {ln, rn} and isinstance(t.ops[0], (ast.Eq, ast.NotEq)):
+                eqv = None if lk == rk else False
+                return eqv if isinstance(t.ops[0], ast.Eq) else (None if eqv is None else True)
+            sc = s.replace(" ", "")
+            if sc in (f"{SHL}[1]!={SHR}[0]", f"{SHR}[0]!={SHL}[1]"):
                 if lk == "V":
                     return True  # (n,1) x (?,?): 1 != rows for the spellable sizes 2..4
                 return None
-            if s.replace(" ", "") == "resultShape[1]==1":
+            if sc in (f"{SHL}[1]=={SHR}[0]", f"{SHR}[0]=={SHL}[1]"):
+                return False if lk == "V" else None
+            RES1 = f"({SHL}[0],{SHR}[1])[1]"
+            if sc in (f"{RES1}==1", f"{SHR}[1]==1"):
                 return rk == "V"
-            if s.replace(" ", "") == "resultShape[1]>1":
+            if sc in (f"{RES1}>1", f"{SHR}[1]>1"):
                 return rk == "M"
         return None
 
+    base_fold = make_fold(atom)
+
+    def rfold(t):
+        return base_fold(resolve(t, renv))
+
     out = []
-    for evs, status in paths(rb.body, fold=make_fold(atom)):
+    for evs, status in paths(rb.body, fold=rfold):
         if status == "raise":
             c = [x for x in ast.walk(evs[-1].node) if isinstance(x, ast.Call) and last_attr(x) == "Raise"]
             out.append(("raise", unparse(c[0].func.value).split(".")[-1] if c else "raise"))
@@ -102,7 +116,7 @@ def typing_outcomes(model: Model, opname: str, lk: str, rk: str, comparisons: se
 
         def kind_expr(x, depth=0):
             t = unparse(x)
-            if isinstance(x, ast.Name) and x.id in ("left", "right"):
+            if isinstance(x, ast.Name) and x.id in kind_of:
                 return kind_of[x.id]
             if isinstance(x, ast.Name) and x.id in env and depth < 5:
                 return kind_expr(env[x.id], depth + 1)
@@ -154,17 +168,19 @@ def from_operation(model: Model, maps, opname: str, reskind: str, k1: str, k2: s
     # special cases: fold the conditions of FromOperation under (operation, kind of v1, kind of v2); a feasible path that
     # returns BinaryInstruction(OpCode.<member>, .., a, b) decides the opcode and the operand order
     pk = {"IsScalar": "S", "IsVector": "V", "IsMatrix": "M"}
-    kof = {"v1": k1, "v2": k2}
+    fargs = [a.arg for a in fo.args.args if a.arg not in ("cls", "self")]
+    opn_, a_n, b_n = fargs[0], fargs[-2], fargs[-1]
+    kof = {a_n: k1, b_n: k2}
 
     def atom(t):
-        if isinstance(t, ast.Compare) and len(t.ops) == 1 and unparse(t.left) == "operation" and isinstance(t.ops[0], (ast.Eq, ast.NotEq, ast.Is, ast.IsNot)):
+        if isinstance(t, ast.Compare) and len(t.ops) == 1 and unparse(t.left) == opn_ and isinstance(t.ops[0], (ast.Eq, ast.NotEq, ast.Is, ast.IsNot)):
             eq = unparse(t.comparators[0]).split(".")[-1] == opname
             return eq if isinstance(t.ops[0], (ast.Eq, ast.Is)) else (not eq)
-        if isinstance(t, ast.Compare) and len(t.ops) == 1 and unparse(t.left) == "operation" and isinstance(t.ops[0], (ast.In, ast.NotIn)) and isinstance(t.comparators[0], (ast.Tuple, ast.List, ast.Set)):
+        if isinstance(t, ast.Compare) and len(t.ops) == 1 and unparse(t.left) == opn_ and isinstance(t.ops[0], (ast.In, ast.NotIn)) and isinstance(t.comparators[0], (ast.Tuple, ast.List, ast.Set)):
             isin = opname in [unparse(e).split(".")[-1] for e in t.comparators[0].elts]
             return isin if isinstance(t.ops[0], ast.In) else (not isin)
-        if isinstance(t, ast.Call) and isinstance(t.func, ast.Attribute) and t.func.attr in pk and unparse(t.func.value) in ("v1.Type", "v2.Type") and not t.args:
-            return kof[unparse(t.func.value)[:2]] == pk[t.func.attr]
+        if isinstance(t, ast.Call) and isinstance(t.func, ast.Attribute) and t.func.attr in pk and unparse(t.func.value) in (f"{a_n}.Type", f"{b_n}.Type") and not t.args:
+            return kof[unparse(t.func.value)[:-5]] == pk[t.func.attr]
         return None
 
     for evs, status in paths(fo.body, loop_iters=(1,), fold=make_fold(atom)):
@@ -184,15 +200,32 @@ def lowering_outcomes(model: Model, maps, opname: str, lk: str, rk: str, reskind
     """[(opcode | ('refuse', why), operand kinds passed to the instruction)]"""
     lv = model.cls(LOWER, "LowerToIRVisitor")
     vb = lv.own_method("v_BinaryExpression")
-    kind_of = {"left": lk, "right": rk}
+    # the locals holding the lowered left / right operand: assigned from a visit of <node>.GetLeft() / .GetRight()
+    kind_of = {}
+    opvars = set()
+    rowvars = set()
+    for n in ast.walk(vb):
+        if isinstance(n, ast.Assign) and isinstance(n.targets[0], ast.Name):
+            tv = unparse(n.value)
+            if "v_Visit(" in tv or "v_Generic(" in tv:
+                if ".GetLeft()" in tv:
+                    kind_of[n.targets[0].id] = lk
+                elif ".GetRight()" in tv:
+                    kind_of[n.targets[0].id] = rk
+            if "GetOperation()" in tv:
+                opvars.add(n.targets[0].id)
+            if "MatrixAccessInstruction(" in tv:
+                rowvars.add(n.targets[0].id)
+    if len(kind_of) != 2:
+        raise AnalysisError(f"{LOWER}::v_BinaryExpression: cannot find the two locals holding the lowered operands (found {sorted(kind_of)})")
 
     def atom(t):
         s = " ".join(unparse(t).split())
-        for who in ("left", "right"):
+        for who in kind_of:
             for pred, k in (("IsScalar", "S"), ("IsVector", "V"), ("IsMatrix", "M")):
                 if s == f"{who}.Type.{pred}()":
                     return kind_of[who] == k
-        if isinstance(t, ast.Compare) and len(t.ops) == 1 and unparse(t.left) == "operation" and unparse(t.comparators[0]).startswith("op.Operation."):
+        if isinstance(t, ast.Compare) and len(t.ops) == 1 and (unparse(t.left) in opvars or unparse(t.left).endswith(".GetOperation()")) and unparse(t.comparators[0]).startswith("op.Operation."):
             eq = unparse(t.comparators[0]).split(".")[-1] == opname
             return eq if isinstance(t.ops[0], ast.Eq) else (not eq)
         return None
@@ -219,8 +252,9 @@ def lowering_outcomes(model: Model, maps, opname: str, lk: str, rk: str, reskind
             continue
         # FromOperation(op, type, a, b)
         a, b = unparse(ctor.args[2]), unparse(ctor.args[3])
-        ak = "V" if "Row" in a else lk
-        bk = "V" if "Row" in b else rk
+        # an operand that is a row taken out of a matrix (a MatrixAccessInstruction) is a vector; otherwise it is the lowered left / right operand
+        ak = "V" if a in rowvars else kind_of.get(a, lk)
+        bk = "V" if b in rowvars else kind_of.get(b, rk)
         rkind = "V" if row_loop else reskind
         r = from_operation(model, maps, opname, rkind, ak, bk)
         if r[0] == "refuse":
@@ -241,12 +275,24 @@ def arm_signature(vm: VMModel, opcode: str) -> Optional[Tuple[str, str]]:
         return None
     arm = vm.arms[opcode]
     src = " ".join(unparse(ast.Module(body=arm.body, type_ignores=[])).split())
-    if "zip(op1, op2)" in src:
+    # the two names bound to the values of Values[0] / Values[1] in the enclosing binary-family arm
+    names = {}
+    holder = arm.outer.body if getattr(arm, "outer", None) is not None else arm.body
+    for st in holder:
+        if isinstance(st, ast.Assign) and len(st.targets) == 1 and isinstance(st.targets[0], ast.Name):
+            t = unparse(st.value)
+            for i in (0, 1):
+                if f"Values[{i}]" in t and "localScope" in t:
+                    names[i] = st.targets[0].id
+    n0, n1 = names.get(0, "op1"), names.get(1, "op2")
+    import re as _re
+
+    if _re.search(rf"zip\({n0}, {n1}\)", src):
         return ("V", "V")
-    if "for v in op1" in src and "op2" in src:
+    if _re.search(rf"for \w+ in {n0}\b", src) and _re.search(rf"\b{n1}\b", src):
         return ("V", "S")
     if "__MatrixMatrixMultiply" in src:
         return ("M", "M")
-    if "op1" in src and "op2" in src:
+    if _re.search(rf"\b{n0}\b", src) and _re.search(rf"\b{n1}\b", src):
         return ("S", "S")
     return None
